@@ -612,3 +612,86 @@ func VerifC01_ArrayValues() {
 		"array + / append changed an array another variable still holds")
 	zzverif.Reach("arrays")
 }
+
+// for over an object with break / continue: keys are visited in ascending
+// order, break leaves the loop, continue skips the rest of the pass
+const srcForObject = `
+@ GET /t/:stop/:skip {
+  $ o = {a: 1, b: 2, c: 4, d: 8}
+  $ s = 0
+  $ seen = ""
+  for k, v in o {
+    if k == stop {
+      break
+    }
+    if k == skip {
+      continue
+    }
+    s = s + v
+    seen = seen + k
+  }
+  > seen + ":" + toString(s)
+}
+`
+
+func VerifC01_ForObjectBreakContinue() {
+	keys := []string{"a", "b", "c", "d", "z"}
+	stop := keys[zzverif.Choice("stop", 5)]
+	skip := keys[zzverif.Choice("skip", 5)]
+	got, ok := runSource(srcForObject, nil, map[string]string{"stop": stop, "skip": skip})
+	seen, sum := "", 0
+	for i, k := range []string{"a", "b", "c", "d"} {
+		if k == stop {
+			break
+		}
+		if k == skip {
+			continue
+		}
+		sum += 1 << i
+		seen += k
+	}
+	want := seen + ":" + string(rune('0'+sum/10)) + string(rune('0'+sum%10))
+	if sum < 10 {
+		want = seen + ":" + string(rune('0'+sum))
+	}
+	zzverif.Assert(ok && got == interface{}(want), "for over an object: break / continue executes other passes than specified")
+	zzverif.Reach("forobj")
+}
+
+// user functions with several parameters: arguments are evaluated in the
+// caller's scope, defaults fill the missing ones
+const srcFunctions = `
+! sub(a: int, b: int): int {
+  > a - b
+}
+
+! gcd(a: int, b: int): int {
+  if b == 0 {
+    > a
+  }
+  > gcd(b, a % b)
+}
+
+@ GET /t/:which {
+  $ a = 10
+  $ b = 3
+  if which == "swap" {
+    > sub(b, a)
+  }
+  if which == "same" {
+    > sub(a, b)
+  }
+  if which == "expr" {
+    > sub(b + a, a * b)
+  }
+  > gcd(48, 18)
+}
+`
+
+func VerifC01_FunctionArguments() {
+	which := []string{"swap", "same", "expr", "gcd"}[zzverif.Choice("which", 4)]
+	got, ok := runSource(srcFunctions, nil, map[string]string{"which": which})
+	want := map[string]int64{"swap": -7, "same": 7, "expr": -17, "gcd": 6}[which]
+	zzverif.Assert(ok && got == interface{}(want), "user function: arguments bound or evaluated in the wrong scope")
+	zzverif.Reach("funcargs")
+}
